@@ -1,4 +1,160 @@
+/-
+  C15 — Fixed-offset zones and their names are exact for every offset within 24 hours.
+  (The lookup half — `breakTime (resetToBuiltinUTC off)` reports exactly `off`, no DST, the numeric
+  abbreviation at every instant — is `fixed_lookup_statement`, proved from the table lemmas.)
+-/
 import Cctz.Model.Fixed
 import Cctz.Model.Tz
+import Cctz.Spec.Gregorian
+import Cctz.Proofs.FixedNames
+
 namespace Cctz.C15
+open Cctz Cctz.Bytes
+
+/-- two ASCII digits of `n` (0 ≤ n ≤ 99) -/
+def twoDigits (n : Int) : Bytes := [UInt8.ofNat (48 + (n / 10).toNat), UInt8.ofNat (48 + (n % 10).toNat)]
+
+/-- the documented canonical name `Fixed/UTC±hh:mm:ss` of a non-zero offset within 24 h -/
+def canonicalName (off : Int) : Bytes :=
+  let a := off.natAbs
+  ofString "Fixed/UTC" ++ [if off < 0 then 45 else 43] ++ twoDigits (a / 3600) ++ [58] ++
+    twoDigits (a / 60 % 60) ++ [58] ++ twoDigits (a % 60)
+
+/-- sign and two-digit hours, followed by minutes, and by seconds, only as far as they are non-zero -/
+def canonicalAbbr (off : Int) : Bytes :=
+  let a := off.natAbs
+  [if off < 0 then 45 else 43] ++ twoDigits (a / 3600) ++
+    (if a % 3600 = 0 then [] else twoDigits (a / 60 % 60) ++ (if a % 60 = 0 then [] else twoDigits (a % 60)))
+
+def isDigitByte (c : UInt8) : Prop := 48 ≤ c ∧ c ≤ 57
+def digitVal (c : UInt8) : Int := c.toNat - 48
+
+/-- `s` has exactly the shape `Fixed/UTC±hh:mm:ss` (all six `h m s` characters digits) and `total`
+is the number of seconds it spells -/
+def HasShape (s : Bytes) (neg : Bool) (total : Int) : Prop :=
+  ∃ h1 h2 m1 m2 s1 s2 : UInt8,
+    isDigitByte h1 ∧ isDigitByte h2 ∧ isDigitByte m1 ∧ isDigitByte m2 ∧ isDigitByte s1 ∧ isDigitByte s2 ∧
+    s = ofString "Fixed/UTC" ++ [if neg then 45 else 43, h1, h2, 58, m1, m2, 58, s1, s2] ∧
+    total = ((digitVal h1 * 10 + digitVal h2) * 60 + (digitVal m1 * 10 + digitVal m2)) * 60
+              + (digitVal s1 * 10 + digitVal s2)
+
+def toName_statement : Prop :=
+  ∀ off : Int,
+    (Fixed.toName off).ok ∧
+    (Fixed.toName off).val =
+      (if off = 0 ∨ off < -86400 ∨ off > 86400 then ofString "UTC" else canonicalName off)
+
+def toAbbr_statement : Prop :=
+  ∀ off : Int,
+    (Fixed.toAbbr off).ok ∧
+    (Fixed.toAbbr off).val =
+      (if off = 0 ∨ off < -86400 ∨ off > 86400 then ofString "UTC" else canonicalAbbr off)
+
+/-- the name maps back to the same offset -/
+def fromName_toName_statement : Prop :=
+  ∀ off : Int, -86400 ≤ off → off ≤ 86400 → Fixed.fromName (Fixed.toName off).val = some off
+
+/-- a string is a fixed-offset name only if it is `UTC`, `UTC0`, or has exactly the canonical
+shape and spells at most 24 hours — for every byte string -/
+def fromName_iff_statement : Prop :=
+  ∀ (s : Bytes) (off : Int),
+    Fixed.fromName s = some off ↔
+      ((s = ofString "UTC" ∨ s = ofString "UTC0") ∧ off = 0) ∨
+      (∃ neg total, HasShape s neg total ∧ total ≤ 86400 ∧ off = (if neg then -total else total))
+
+/-- the tables/bounds the statements above rely on are the documented ones (regenerated from the
+source on every run: a changed constant breaks this theorem) -/
+def constants_statement : Prop :=
+  Gen.kFixedZonePrefix = [70, 105, 120, 101, 100, 47, 85, 84, 67] ∧ Gen.fixedNameLimit = 86400 ∧
+  Gen.fixedToNameHoursLo = -24 ∧ Gen.fixedToNameHoursHi = 24
+
+end Cctz.C15
+
+namespace Cctz.C15
+open Cctz Cctz.Bytes
+
+theorem twoDigits_eq (n : Int) : twoDigits n = Fixed.td n := rfl
+
+theorem toName_case (off : Int) :
+    (Fixed.toName off).ok ∧
+    (Fixed.toName off).val =
+      (if off = 0 ∨ off < -86400 ∨ off > 86400 then ofString "UTC" else canonicalName off) := by
+  by_cases h : off = 0 ∨ off < -86400 ∨ off > 86400
+  · rw [if_pos h]
+    unfold Fixed.toName
+    rcases h with h | h
+    · subst h; exact ⟨rfl, rfl⟩
+    · have : (off == 0) = false := by simp; omega
+      simp only [this, Bool.false_eq_true, if_false, h, if_true]; exact ⟨rfl, rfl⟩
+  · rw [if_neg h]
+    unfold canonicalName
+    simp only [twoDigits_eq, Fixed.ofString_prefix, ← Fixed.prefixBytes_eq]
+    by_cases hn : off < 0
+    · have := Fixed.toName_neg off hn (by omega)
+      have e : (off.natAbs : Int) = -off := by omega
+      simp only [hn, if_true, e]; exact this
+    · have := Fixed.toName_pos off (by omega) (by omega)
+      have e : (off.natAbs : Int) = off := by omega
+      simp only [hn, if_false, e]; exact this
+
+theorem toName : toName_statement := toName_case
+
+theorem toAbbr : toAbbr_statement := by
+  intro off
+  have hn := toName_case off
+  rw [Fixed.toAbbr_eq]
+  refine ⟨by simp only [Ck.bind_ok]; exact ⟨hn.1, Fixed.abbrOf_ok _⟩, ?_⟩
+  rw [Ck.bind_val, hn.2]
+  by_cases h : off = 0 ∨ off < -86400 ∨ off > 86400
+  · simp only [if_pos h, Fixed.ofString_UTC, Fixed.abbrOf_UTC]
+  · simp only [if_neg h]
+    unfold canonicalName canonicalAbbr
+    simp only [twoDigits_eq, Fixed.ofString_prefix, ← Fixed.prefixBytes_eq]
+    have key := Fixed.abbrOf_abs (off.natAbs : Int) (by omega) (by omega) (if off < 0 then 45 else 43)
+    have e1 : ((off.natAbs : Int) % 3600 = 0) ↔ (off.natAbs % 3600 = 0) := by omega
+    have e2 : ((off.natAbs : Int) % 60 = 0) ↔ (off.natAbs % 60 = 0) := by omega
+    simp only [e1, e2] at key
+    exact key
+
+theorem fromName_toName : fromName_toName_statement := by
+  intro off hlo hhi
+  rw [(toName_case off).2]
+  by_cases h : off = 0
+  · rw [if_pos (Or.inl h), h]; exact Fixed.fromName_UTC _ (Or.inl Fixed.ofString_UTC)
+  · rw [if_neg (by omega)]
+    unfold canonicalName
+    simp only [twoDigits_eq, Fixed.ofString_prefix, ← Fixed.prefixBytes_eq]
+    have key := Fixed.fromName_canonical (off.natAbs : Int) (by omega) (by omega) (decide (off < 0))
+    have e : (if decide (off < 0) = true then -(off.natAbs : Int) else off.natAbs) = off := by
+      by_cases hn : off < 0 <;> simp [hn] <;> omega
+    have e2 : (if decide (off < 0) = true then (45 : UInt8) else 43) = (if off < 0 then 45 else 43) := by
+      by_cases hn : off < 0 <;> simp [hn]
+    rw [e, e2] at key
+    exact key
+
+theorem fromName_iff : fromName_iff_statement := by
+  intro s off
+  rw [Fixed.fromName_iff', Fixed.ofString_UTC, Fixed.ofString_UTC0]
+  constructor
+  · rintro (h | ⟨neg, h1, h2, m1, m2, s1, s2, d1, d2, d3, d4, d5, d6, hs, ht, ho⟩)
+    · exact Or.inl h
+    · refine Or.inr ⟨neg, Fixed.tot h1 h2 m1 m2 s1 s2, ⟨h1, h2, m1, m2, s1, s2, d1, d2, d3, d4, d5, d6, ?_, rfl⟩,
+        ht, ho⟩
+      rw [hs, Fixed.ofString_prefix, Fixed.prefixBytes_eq]
+  · rintro (h | ⟨neg, total, ⟨h1, h2, m1, m2, s1, s2, d1, d2, d3, d4, d5, d6, hs, htot⟩, ht, ho⟩)
+    · exact Or.inl h
+    · have htot' : total = Fixed.tot h1 h2 m1 m2 s1 s2 := htot
+      subst htot'
+      refine Or.inr ⟨neg, h1, h2, m1, m2, s1, s2, d1, d2, d3, d4, d5, d6, ?_, ht, ho⟩
+      rw [hs, Fixed.ofString_prefix, Fixed.prefixBytes_eq]
+
+theorem constants : constants_statement := by unfold constants_statement; decide
+
+/-- the hypotheses of `fromName_toName` / the shape of `fromName_iff` are satisfiable -/
+example : Fixed.fromName (Fixed.toName (-16200)).val = some (-16200) := by decide +kernel
+example : HasShape (ofString "Fixed/UTC-04:30:00") true 16200 :=
+  ⟨48, 52, 51, 48, 48, 48, by unfold isDigitByte; decide, by unfold isDigitByte; decide,
+    by unfold isDigitByte; decide, by unfold isDigitByte; decide, by unfold isDigitByte; decide,
+    by unfold isDigitByte; decide, by decide +kernel, by decide⟩
+
 end Cctz.C15
